@@ -348,12 +348,17 @@ func runSeqPlans() {
 
 func (s *seqSession) frame(m *gmsg, dotu bool) []byte {
 	fc := go9p.NewFcall(1 << 21)
-	if err := packInto(fc, m, dotu); err != nil {
-		panic(err)
-	}
 	s.tag++
 	if s.tag == 0xffff {
 		s.tag = 1
+	}
+	if m.kind == go9p.Tflush && uint16(m.a) == s.tag {
+		// a Tflush naming its own tag is the recorded finding 'flush-cycle' (never answered); it has its
+		// own scenarios in srvconc and would stall this one-request-at-a-time session
+		m.a ^= 1
+	}
+	if err := packInto(fc, m, dotu); err != nil {
+		panic(err)
 	}
 	go9p.SetTag(fc, s.tag)
 	return append([]byte{}, fc.Pkt...)
